@@ -10,11 +10,12 @@ use serde_json::{json, Value};
 
 use crate::reference::varint as rv;
 use crate::runner::{hex, unhex, Ctx, Failure, PropDef, Tier, Verdict};
+use crate::tape::Segs;
 use crate::tape::Tape;
 
 pub static PROP: PropDef = PropDef {
     id: "C16",
-    rule: "cases: (a) decode of a byte string, (b) encode of a value, (c) checked constructors, (d) stream-id queries and id+n; \
+    rule: "cases: (a) decode of a byte string - from a contiguous buffer and from the same bytes handed over in pieces (a multi-chunk Buf: every cut, every pair of cuts, bytewise; same value, same bytes consumed, same refusal), (b) encode of a value, (c) checked constructors, (d) stream-id queries and id+n; \
            exhaustive over all 1- and 2-byte strings (3-byte in thorough), all values < 2^16, +-2 around 2^6/2^14/2^30/2^62, every truncation of every form; \
            random 62/64-bit values and 1..9 byte strings from the tape. non-trivial = value within +-2 of a form boundary, or a non-minimal encoding, \
            or a truncated encoding, or an increment that saturates; distinct by (kind, input)",
@@ -27,7 +28,7 @@ pub static PROP: PropDef = PropDef {
     run_tape,
     exhaustive: Some(exhaustive),
     run_direct: Some(run_direct),
-    min_classes: &[("decode_nonminimal", 1000), ("decode_truncated", 100), ("add_saturates", 50), ("ctor_refused", 50)],
+    min_classes: &[("decode_nonminimal", 1000), ("decode_cut_inside_the_integer", 1000), ("decode_truncated", 100), ("add_saturates", 50), ("ctor_refused", 50)],
     extra: None,
 };
 
@@ -35,6 +36,57 @@ const BOUNDS: [u64; 4] = [1 << 6, 1 << 14, 1 << 30, 1 << 62];
 
 fn near_boundary(v: u64) -> bool {
     BOUNDS.iter().any(|b| v + 2 >= *b && v <= *b + 2)
+}
+
+/// the same bytes handed over in pieces decode to the same value, consume the same number of bytes and fail alike
+fn check_decode_segmented(b: &[u8], cuts: &[usize], ctx: &mut Ctx) -> Verdict {
+    ctx.eval();
+    let case = || json!({"kind": "decode_segmented", "bytes": hex(b), "cuts": cuts});
+    let mut buf = Segs::new(b, cuts);
+    let before = buf.remaining();
+    let got = crate::runner::catch(|| {
+        let r = VarInt::decode(&mut buf);
+        (r, buf)
+    });
+    let (got, buf) = match got {
+        Ok(x) => x,
+        Err(p) => return Err(Failure::direct(format!("decode over a segmented buffer panicked: {p}"), case())),
+    };
+    let consumed = before - buf.remaining();
+    match rv::decode(b) {
+        rv::Dec::Ok(v, n) => {
+            match got {
+                Ok(x) if x.into_inner() == v && consumed == n => {}
+                other => return Err(Failure::direct(format!("decode over chunks cut at {cuts:?}: expected value {v} consuming {n}, got {other:?} consuming {consumed}"), case())),
+            }
+            // what follows is untouched
+            let mut rest = Vec::new();
+            let mut buf = buf;
+            while buf.has_remaining() {
+                let c = buf.chunk().to_vec();
+                buf.advance(c.len());
+                rest.extend(c);
+            }
+            if rest != b[n..] {
+                return Err(Failure::direct("the bytes after the integer changed", case()));
+            }
+            let mut g = Segs::new(b, cuts);
+            if g.get_var().ok() != Some(v) {
+                return Err(Failure::direct("get_var over a segmented buffer disagrees with decode", case()));
+            }
+            if cuts.iter().any(|c| *c > 0 && *c < n) {
+                ctx.class("decode_cut_inside_the_integer");
+                ctx.nontrivial(&(2u8, b[..n].to_vec(), cuts.to_vec()));
+            }
+        }
+        rv::Dec::Truncated => {
+            if got.is_ok() {
+                return Err(Failure::direct(format!("truncated encoding accepted over a segmented buffer: {got:?}"), case()));
+            }
+            ctx.class("decode_truncated_segmented");
+        }
+    }
+    Ok(())
 }
 
 fn check_decode(b: &[u8], ctx: &mut Ctx) -> Verdict {
@@ -221,6 +273,19 @@ fn exhaustive(ctx: &mut Ctx, shard: usize, nshards: usize) -> Verdict {
                         let mut with_tail = enc.clone();
                         with_tail.extend_from_slice(&[0xff, 0x00]);
                         check_decode(&with_tail, ctx)?;
+                        // the same bytes arriving in pieces: every single cut, every pair of cuts, one byte per chunk;
+                        // also truncated
+                        for a in 0..=with_tail.len() {
+                            check_decode_segmented(&with_tail, &[a], ctx)?;
+                            for b2 in a..=with_tail.len() {
+                                check_decode_segmented(&with_tail, &[a, b2], ctx)?;
+                            }
+                            if a < enc.len() {
+                                check_decode_segmented(&enc[..a], &[a / 2], ctx)?;
+                            }
+                        }
+                        let every: Vec<usize> = (1..with_tail.len()).collect();
+                        check_decode_segmented(&with_tail, &every, ctx)?;
                     }
                 }
             }
@@ -228,7 +293,7 @@ fn exhaustive(ctx: &mut Ctx, shard: usize, nshards: usize) -> Verdict {
         for v in [u64::MAX, u64::MAX - 1, 1 << 63, (1 << 63) + 1, (1 << 62) + (1 << 61)] {
             check_value(v, ctx)?;
         }
-        ctx.subspace("+-2 around 2^6, 2^14, 2^30, 2^62 in every form with every truncation", 4 * 5);
+        ctx.subspace("+-2 around 2^6, 2^14, 2^30, 2^62 in every form with every truncation, and in pieces (every cut, every pair of cuts, bytewise)", 4 * 5);
         // stream ids: four kinds x index boundaries x increments
         let idxs: [u64; 8] = [0, 1, 2, 1 << 30, (1 << 60) - 3, (1 << 60) - 2, (1 << 60) - 1, 12345];
         let incs: [usize; 10] = [0, 1, 2, 3, 1 << 32, 1 << 59, 1 << 60, (1 << 60) + 1, usize::MAX - 1, usize::MAX];
@@ -263,7 +328,11 @@ fn run_tape(tape: &[u16], ctx: &mut Ctx) -> Verdict {
         1 => {
             // random byte string 0..9
             let b = t.bytes(9);
-            check_decode(&b, ctx)
+            check_decode(&b, ctx)?;
+            let cuts = [t.pick(b.len() + 1), t.pick(b.len() + 1), t.pick(b.len() + 1)];
+            let mut cuts = cuts.to_vec();
+            cuts.sort();
+            check_decode_segmented(&b, &cuts, ctx)
         }
         2 => {
             // valid encoding in a random form, random truncation / tail
@@ -277,7 +346,10 @@ fn run_tape(tape: &[u16], ctx: &mut Ctx) -> Verdict {
             } else {
                 enc.extend(t.bytes(3));
             }
-            check_decode(&enc, ctx)
+            check_decode(&enc, ctx)?;
+            let mut cuts = vec![t.pick(enc.len() + 1), t.pick(enc.len() + 1)];
+            cuts.sort();
+            check_decode_segmented(&enc, &cuts, ctx)
         }
         _ => {
             let kind = t.pick(4) as u64;
@@ -300,6 +372,10 @@ fn run_tape(tape: &[u16], ctx: &mut Ctx) -> Verdict {
 fn run_direct(d: &Value, ctx: &mut Ctx) -> Verdict {
     match d.get("kind").and_then(|k| k.as_str()) {
         Some("decode") => check_decode(&unhex(d["bytes"].as_str().unwrap_or("")), ctx),
+        Some("decode_segmented") => {
+            let cuts: Vec<usize> = d["cuts"].as_array().map(|a| a.iter().map(|x| x.as_u64().unwrap_or(0) as usize).collect()).unwrap_or_default();
+            check_decode_segmented(&unhex(d["bytes"].as_str().unwrap_or("")), &cuts, ctx)
+        }
         Some("value") => check_value(d["value"].as_u64().unwrap_or(0), ctx),
         Some("stream_id") => check_stream_id(d["id"].as_u64().unwrap_or(0), d["n"].as_u64().unwrap_or(0) as usize, ctx),
         _ => Err(Failure::fault("unknown direct case")),
